@@ -69,14 +69,14 @@ func genWith(o gen.Options) func(rt *rapid.T) Case {
 	}
 }
 
-var chk = pbt.Check[Case]{Name: "byte-order-transparent", Gen: genWith(gen.Options{Unbuffered: true, Split: true, MaxForeign: 4, Arrays: true}), Eval: eval}
+var chk = pbt.Check[Case]{Name: "byte-order-transparent", Gen: genWith(gen.Options{Unbuffered: true, Split: true, MaxForeign: 4, Arrays: true, MistypedText: true}), Eval: eval}
 
 func init() { pbt.Register(chk) }
 
 func TestProp(t *testing.T) {
 	defer rec.MustWrite()
 	rec.Rule("the same (record, layout) of C03's generator encoded little- and big-endian, embedded with identical surroundings in TIFF, JPEG, PNG, CR3 (CMT1 and split CMT1/2/4) and HEIF; " +
-		"covers every type that can sit in the 4-byte slot for the fields read embedded (1-3 character strings, SHORT/LONG dimensions, orientation, ISO, refs, sub-seconds, program/mode/metering/flash, BYTE altitude ref); " +
+		"covers every type that can sit in the 4-byte slot for the fields read embedded (1-3 character strings, SHORT/LONG dimensions, orientation, ISO, refs, sub-seconds, program/mode/metering/flash, BYTE altitude ref), and text tags written with a numeric type (SHORT x 1 / x 2, LONG in the slot, SHORT x 6 out of line: not text, the field stays empty in either byte order); " +
 		"oracle: digest(II) == digest(MM) per container and entry point, and both equal the record. non-trivial = >= 1 embedded SHORT, >= 1 embedded ASCII and >= 1 out-of-line rational; distinct by (II bytes, MM bytes, JPEG embedding)")
 	rec.Assume("same soundness exclusions as C03/C06 (signature-free HEIF prefix, JPEG payload <= 65000 bytes, forward layout)")
 	pbt.RegressDir(t, rec)
